@@ -230,9 +230,9 @@ pub fn run_case(a: &Args, tag: &'static str, idx: u64, handle_dim: bool, acc: &m
 }
 
 pub fn run(a: &Args) -> Acc {
-    let n = a.n(1500, 40000);
+    let n = a.n(6000, 80000);
     let mut acc = par_run(a, "c20-calls", n, |a, idx, acc| run_case(a, "c20-calls", idx, false, acc));
-    let nh = a.n(400, 15000);
+    let nh = a.n(2000, 30000);
     acc.merge(par_run(a, "c20-handles", nh, |a, idx, acc| run_case(a, "c20-handles", idx, true, acc)));
     acc
 }
